@@ -274,6 +274,10 @@ func runPart(prop, tier string, seed uint64, p part, budgetS int) *partResult {
 			if p.Race {
 				env = append(env, "SIM_RACE=1")
 			}
+			if kf := knownFor(prop); len(kf) > 0 {
+				kb, _ := json.Marshal(kf)
+				env = append(env, "SIM_KNOWN="+string(kb))
+			}
 			text, err := runCmd(scratch, env, bin, "-test.run", "^TestSim$", "-test.timeout", "0", "-test.cpu", "1")
 			st := &workerStats{}
 			b, rerr := os.ReadFile(out)
@@ -433,6 +437,62 @@ func addMap(dst, src map[string]int) {
 	}
 }
 
+type knownFinding struct {
+	Class string `json:"class"`
+	Sig   string `json:"sig"`
+	What  string `json:"-"`
+}
+
+// knownFor reads the open ("known:") entries of KNOWN_FINDINGS.txt for prop:
+//
+//	known: property=C09 class=C09.slot sig="item 3" free text describing what fails
+//
+// "fixed:" entries suppress nothing and are ignored here.
+func knownFor(prop string) []knownFinding {
+	b, err := os.ReadFile(filepath.Join(verifDir, "KNOWN_FINDINGS.txt"))
+	if err != nil {
+		return nil
+	}
+	var out []knownFinding
+	for _, line := range strings.Split(string(b), "\n") {
+		line = strings.TrimSpace(line)
+		if !strings.HasPrefix(line, "known:") {
+			continue
+		}
+		rest := strings.TrimSpace(strings.TrimPrefix(line, "known:"))
+		var k knownFinding
+		p := ""
+		for _, f := range []string{"property", "class", "sig"} {
+			key := f + "="
+			i := strings.Index(rest, key)
+			if i < 0 {
+				continue
+			}
+			v := rest[i+len(key):]
+			if strings.HasPrefix(v, "\"") {
+				if j := strings.Index(v[1:], "\""); j >= 0 {
+					v = v[1 : 1+j]
+				}
+			} else if j := strings.IndexByte(v, ' '); j >= 0 {
+				v = v[:j]
+			}
+			switch f {
+			case "property":
+				p = v
+			case "class":
+				k.Class = v
+			case "sig":
+				k.Sig = v
+			}
+		}
+		if p == prop && k.Class != "" {
+			k.What = rest
+			out = append(out, k)
+		}
+	}
+	return out
+}
+
 type mustReach struct {
 	Engine string
 	Probes []string
@@ -579,9 +639,9 @@ func check(prop, tier string) int {
 	cov["budget_cut_short"] = timedOut
 	cov["instrumentation"] = map[string]any{"sites": istats.Sites, "uninstrumented_sites": istats.Uninstr, "source_sha": istats.SourceSHA, "files": istats.Files}
 	cov["real_vs_stub"] = map[string]string{
-		"real":      "every line of flyt's root package (instrumented copy of the working tree), Go channels, select, context, encoding/json, reflect",
-		"simulated": "sync.Mutex/RWMutex/WaitGroup/Once (simsync), goroutine scheduling at instrumented points (seeded scheduler), the clock (testing/synctest fake clock), map iteration order",
-		"stub":      "user nodes / callbacks / pool tasks / store clients (scripted by the harness: they are the environment)",
+		"real":                         "every line of flyt's root package (instrumented copy of the working tree), Go channels, select, context, encoding/json, reflect",
+		"simulated":                    "sync.Mutex/RWMutex/WaitGroup/Once (simsync), goroutine scheduling at instrumented points (seeded scheduler), the clock (testing/synctest fake clock), map iteration order",
+		"stub":                         "user nodes / callbacks / pool tasks / store clients (scripted by the harness: they are the environment)",
 		"not_simulated_because_absent": "network, disk, process crash/restart, clock skew, allocation failure",
 	}
 	ev := map[string]any{
@@ -593,6 +653,9 @@ func check(prop, tier string) int {
 	eb, _ := json.MarshalIndent(ev, "", " ")
 	if err := os.WriteFile(filepath.Join(edir, prop+".json"), eb, 0o644); err != nil {
 		die(2, "writing evidence: %v", err)
+	}
+	for _, k := range knownFor(prop) {
+		fmt.Printf("KNOWN-FINDING: property=%s %s\n", prop, k.What)
 	}
 	fmt.Printf("%s %s: %d runs, %d distinct non-trivial, %.1fs simulated, %.1fs wall\n", prop, tier, evals, distinct, float64(simNs)/1e9, wall)
 	if best != nil {
